@@ -18,16 +18,17 @@ import (
 
 func init() {
 	h.Register(&h.Prop{ID: "C15", Gen: genC15, Exec: withCells(map[string]h.ExecFn{
-		"w.addr":           exWAddr,
-		"w.gwa":            exWGwa,
-		"w.gsi":            exWGsi,
-		"w.send":           exWSend,
-		"w.ctx":            exWCtx,
-		"go.addr.apis":     goAddrApis,
-		"go.addr.distinct": goAddrDistinct,
-		"go.addr.anchor":   goAddrAnchor,
-		"go.send.prop":     goSendProp,
-		"go.send.hist":     goSendHist,
+		"w.addr":            exWAddr,
+		"w.gwa":             exWGwa,
+		"w.gsi":             exWGsi,
+		"w.send":            exWSend,
+		"w.ctx":             exWCtx,
+		"go.addr.apis":      goAddrApis,
+		"go.addr.distinct":  goAddrDistinct,
+		"go.addr.anchor":    goAddrAnchor,
+		"go.codes.distinct": goCodesDistinct,
+		"go.send.prop":      goSendProp,
+		"go.send.hist":      goSendHist,
 	})})
 }
 
@@ -268,6 +269,20 @@ func goAddrAnchor(a []string) string {
 		if err != nil || got.ToRaw() != x.addr {
 			return "FAIL anchor " + x.ver.ToString()
 		}
+	}
+	return "ok"
+}
+
+// go.codes.distinct: the published code cells of the supported versions have pairwise distinct hashes (the finite
+// computation that turns "same code hash" of theorem address_injective into "same version")
+func goCodesDistinct(a []string) string {
+	seen := map[tlb.Bits256]wallet.Version{}
+	for _, v := range supportedVers {
+		hs := wallet.GetCodeHashByVer(v)
+		if w, dup := seen[hs]; dup {
+			return fmt.Sprintf("FAIL same-code-hash %v %v", w, v)
+		}
+		seen[hs] = v
 	}
 	return "ok"
 }
@@ -600,6 +615,7 @@ func genC15(g *h.G) {
 	cx := &c15gen{g}
 	genPrim(g, "prim.sha256")
 	g.Emit("go.addr.anchor")
+	g.Emit("go.codes.distinct")
 	for _, x := range addrAnchors {
 		g.Emit("w.gwa", fmt.Sprint(int(x.ver)), x.key, "0", "_", "_", codeTable(x.ver))
 	}
